@@ -32,6 +32,15 @@ RULE = (
     "levels; distinct by (configuration, state, upwind mode, quantity, identity)"
 )
 ASSUMPTIONS = [
+    "history axis: one model object whose boundary condition TYPE changes between two time "
+    "steps (flag-dependent bc_type_* mixin: Dirichlet with non-trivial pressure / temperature "
+    "data on the west and east sides = open, homogeneous Neumann everywhere = closed); the "
+    "change is followed by the shipped per-step path before_nonlinear_loop() + "
+    "before_nonlinear_iteration(), with the Darcy / Fourier flux discretizations registered "
+    "through add_nonlinear_*_flux_discretization so that they are re-discretized; "
+    "'open-closed': set up, discretized and assembled open, then closed -> identities "
+    "(i)-(iii) must hold; 'closed-open' (control): identities on the closed model, then open -> "
+    "the cell sums must equal the net flux through the external boundary, which is non-zero",
     "closed boundaries = Neumann type with zero values for the Darcy, fluid, Fourier and "
     "enthalpy fluxes on every external boundary face of every subdomain (mixin overriding "
     "the bc_type_* methods); no external sources (shipped default)",
@@ -45,7 +54,8 @@ ASSUMPTIONS = [
     "levels; mechanics boundary conditions stay at the default",
 ]
 BOUNDS = {
-    "quick": "2-d Cartesian, fracture subsets {} {0} {0,1}; unit square with non-matching "
+    "quick": "history axis: {open-closed, closed-open} x {flow, mass+energy} x 2-d Cartesian {} {0} "
+    "{0,1} x 2 states (thorough: + non-matching {0,1}, simplex {0}, 3-d {0}); 2-d Cartesian, fracture subsets {} {0} {0,1}; unit square with non-matching "
     "fracture (x2) and mortar (x3) refinement, {0} {0,1}; families flow, mass+energy; "
     "compressible/incompressible; gravity off/on; 6 state letters x 2 upwind modes; plus the "
     "differentiable TPFA flux laws (DarcysLawAd, FouriersLawAd) on Cartesian {0} {0,1}",
@@ -83,6 +93,14 @@ def cases(tier):
     for fam in ("flow", "mae"):
         for dim, fr, grid in adgeoms:
             out.append({"cfg": _cfg(fam, dim, fr, grid, "comp", False, "adtpfa")})
+    # history axis: the boundary condition TYPE changes between two time steps of one model
+    hgeoms = [(2, [], "cart"), (2, [0], "cart"), (2, [0, 1], "cart")]
+    if tier == "thorough":
+        hgeoms += [(2, [0, 1], "nonmatch"), (2, [0], "simplex"), (3, [0], "cart")]
+    for fam in ("flow", "mae"):
+        for dim, fr, grid in hgeoms:
+            for hist in ("open-closed", "closed-open"):
+                out.append({"cfg": _cfg(fam, dim, fr, grid, "comp", bool(fr)), "history": hist})
     if tier == "thorough":
         for fam in ("flow", "mae"):
             out.append({"cfg": _cfg(fam, 3, [2], "well3d", "comp", True)})
@@ -183,9 +201,20 @@ def run_case(case) -> Outcome:
 
     out = Outcome()
     cfg = case["cfg"]
+    hist = case.get("history")
+    if hist is not None:
+        return _run_history(case, out)
     model = G.build(cfg, extra_mixins=(_closed_mixin(),), tag="closed")
+    _closed_phase(out, model, cfg, tuple(G.STATE_LETTERS), ("stale", "fresh"), "")
+    return out
+
+
+def _closed_phase(out, model, cfg, letters, modes, htag):
+    """Identities (i)-(iii) on a model whose boundaries are (now) closed."""
+    import porepy as pp
+
     es = model.equation_system
-    ck = G.cfg_key(cfg)
+    ck = G.cfg_key(cfg) + htag
     sds = model.mdg.subdomains()
     dt = float(cfg["dt"])
     div = pp.ad.Divergence(sds, dim=1)
@@ -193,9 +222,10 @@ def run_case(case) -> Outcome:
     # closed form only where apertures are the constant residual aperture (no wells)
     pure_flow = cfg["fam"] in ("flow", "mae") and cfg["grid"] != "well3d"
     x_init = np.array(es.get_variable_values(iterate_index=0), dtype=float)
-    for letter in G.STATE_LETTERS:
+    hp = (htag + ":") if htag else ""
+    for letter in letters:
         x0, xp = G.make_states(model, letter)
-        for mode in ("stale", "fresh"):
+        for mode in modes:
             # 'stale': upwind matrices as discretized for the initial state
             es.set_variable_values(x_init, iterate_index=0)
             for i in model.time_step_indices:
@@ -221,6 +251,8 @@ def run_case(case) -> Outcome:
             for quantity, eqname in _quantities(model):
                 flux_op, src_op, acc_op = _operators(model, quantity)
                 base = {"state": letter, "upwind": mode, "quantity": quantity}
+                if htag:
+                    base["history"] = htag
                 try:
                     flux = _ev(es, flux_op, x0)
                     divflux = _ev(es, div @ flux_op, x0)
@@ -241,11 +273,11 @@ def run_case(case) -> Outcome:
                 key = (ck, letter, mode, quantity, "i") if coupled else None
                 _bucket(out, abs(s1) / max(scale1, 1.0))
                 if abs(s1) <= TOL * max(scale1, 1.0):
-                    out.ev(f"{quantity}:(i):{'interfaces' if has_intf else 'single-domain'}:{mode}", key)
+                    out.ev(f"{hp}{quantity}:(i):{'interfaces' if has_intf else 'single-domain'}:{mode}", key)
                 else:
                     out.violate("fluxes do not cancel: sum(div flux - source) != 0", total=s1, scale=scale1,
                                 per_subdomain=_per_subdomain(model, divflux, src), **base)
-                    out.ev(f"VIOLATION:{quantity}:(i)", key)
+                    out.ev(f"VIOLATION:{hp}{quantity}:(i)", key)
                 # (ii) residual sum = rate of change of the accumulation
                 rate = (float(np.sum(a_now)) - float(np.sum(a_prev))) / dt
                 s2 = float(np.sum(res))
@@ -254,12 +286,12 @@ def run_case(case) -> Outcome:
                 key = (ck, letter, mode, quantity, "ii") if (coupled and changes) else None
                 _bucket(out, abs(s2 - rate) / max(scale2, 1.0))
                 if abs(s2 - rate) <= TOL * max(scale2, 1.0):
-                    out.ev(f"{quantity}:(ii):{'changing' if changes else 'steady'}:{mode}", key)
+                    out.ev(f"{hp}{quantity}:(ii):{'changing' if changes else 'steady'}:{mode}", key)
                 else:
                     out.violate("sum of balance residuals != rate of change of the accumulated quantity",
                                 residual_sum=s2, rate_of_change=rate, scale=scale2,
                                 sum_div_flux_minus_source=s1, **base)
-                    out.ev(f"VIOLATION:{quantity}:(ii)", key)
+                    out.ev(f"VIOLATION:{hp}{quantity}:(ii)", key)
                 # (iii) closed-form accumulation (pure flow models)
                 if pure_flow:
                     c_now, c_prev = _closed_form(model, cfg, x0, quantity), _closed_form(model, cfg, xp, quantity)
@@ -268,16 +300,153 @@ def run_case(case) -> Outcome:
                     rate_c = (c_now - c_prev) / dt
                     key = (ck, letter, mode, quantity, "iii") if changes else None
                     if d3 <= 1e-11 * sc and abs(s2 - rate_c) <= 1e-10 * max(scale2, 1.0):
-                        out.ev(f"{quantity}:(iii):closed-form", key)
+                        out.ev(f"{hp}{quantity}:(iii):closed-form", key)
                     else:
                         out.violate("accumulated quantity differs from its closed form / residual sum differs "
                                     "from the closed-form rate", closed_form_now=c_now, model_now=float(np.sum(a_now)),
                                     closed_form_prev=c_prev, model_prev=float(np.sum(a_prev)), residual_sum=s2,
                                     closed_form_rate=rate_c, **base)
-                        out.ev(f"VIOLATION:{quantity}:(iii)", key)
+                        out.ev(f"VIOLATION:{hp}{quantity}:(iii)", key)
                 if len(out.samples) < 1 and coupled and letter == "lin-1" and mode == "fresh":
                     out.samples.append({"cfg": cfg, **base, "sum_div_flux_minus_source": s1, "sum_abs_terms": scale1,
                                         "residual_sum": s2, "rate_of_change": rate})
+
+
+# ------------------------------------------------------------------- history axis
+
+
+def _switchable_mixin():
+    """Boundaries that are open (Dirichlet with non-trivial data on the west and east
+    sides) or closed (homogeneous Neumann everywhere) depending on a flag that the harness
+    flips between time steps; Darcy and Fourier flux discretizations are registered with
+    the shipped hooks for re-discretization in every update of the derived quantities."""
+    import porepy as pp
+
+    class SwitchableBoundaries:
+        def _bc(self, sd):
+            sides = self.domain_boundary_sides(sd)
+            if self.params.get("grpd_closed", False):
+                return pp.BoundaryCondition(sd, sides.all_bf, "neu")
+            return pp.BoundaryCondition(sd, sides.west + sides.east, "dir")
+
+        def bc_type_darcy_flux(self, sd):
+            return self._bc(sd)
+
+        def bc_type_fluid_flux(self, sd):
+            return self._bc(sd)
+
+        def bc_type_fourier_flux(self, sd):
+            return self._bc(sd)
+
+        def bc_type_enthalpy_flux(self, sd):
+            return self._bc(sd)
+
+        def bc_values_pressure(self, bg):
+            vals = self.reference_variable_values.pressure * np.ones(bg.num_cells)
+            sides = self.domain_boundary_sides(bg)
+            vals[sides.west] += 1.0
+            vals[sides.east] -= 0.3
+            return vals
+
+        def bc_values_temperature(self, bg):
+            vals = self.reference_variable_values.temperature * np.ones(bg.num_cells)
+            sides = self.domain_boundary_sides(bg)
+            vals[sides.west] += 0.5
+            vals[sides.east] -= 0.2
+            return vals
+
+        def add_nonlinear_darcy_flux_discretization(self):
+            self.add_nonlinear_diffusive_flux_discretization(
+                self.darcy_flux_discretization(self.mdg.subdomains()).flux()
+            )
+
+        def add_nonlinear_fourier_flux_discretization(self):
+            self.add_nonlinear_diffusive_flux_discretization(
+                self.fourier_flux_discretization(self.mdg.subdomains()).flux()
+            )
+
+    return SwitchableBoundaries
+
+
+def _boundary_outflow(model, flux):
+    """Net flux leaving through the external boundary faces, from the face fluxes."""
+    tot, absum, pos = 0.0, 0.0, 0
+    for sd in model.mdg.subdomains():
+        nf = sd.num_faces
+        if nf:
+            sgn = np.asarray(sd.cell_faces.sum(axis=1)).ravel()
+            bnd = sd.tags["domain_boundary_faces"]
+            f = flux[pos : pos + nf]
+            tot += float(np.sum(sgn[bnd] * f[bnd]))
+            absum += float(np.sum(np.abs(f[bnd])))
+        pos += nf
+    return tot, absum
+
+
+def _open_phase(out, model, cfg, letters, htag):
+    """Control with open boundaries: the cell sums equal the net flux through the external
+    boundary (divergence theorem of the discretization), and that flux is not zero."""
+    import porepy as pp
+
+    es = model.equation_system
+    ck = G.cfg_key(cfg) + htag
+    sds = model.mdg.subdomains()
+    div = pp.ad.Divergence(sds, dim=1)
+    for letter in letters:
+        x0, xp = G.make_states(model, letter)
+        G.install(model, x0, xp)
+        for quantity, _ in _quantities(model):
+            flux_op, src_op, _acc = _operators(model, quantity)
+            flux = _ev(es, flux_op, x0)
+            divflux = _ev(es, div @ flux_op, x0)
+            src = _ev(es, src_op, x0)
+            if src.size == 1 and divflux.size > 1:
+                src = np.full(divflux.size, float(src[0]))
+            outflow, absum = _boundary_outflow(model, flux)
+            s1 = float(np.sum(divflux - src))
+            scale = float(np.sum(np.abs(flux)) + np.sum(np.abs(src))) + 1.0
+            through = absum > 1e-6 * scale
+            key = (ck, letter, quantity, "open") if through else None
+            if abs(s1 - outflow) <= TOL * scale:
+                out.ev(f"{htag}:{quantity}:open:{'boundary-flux' if through else 'no-boundary-flux'}", key)
+            else:
+                out.violate("open boundaries: sum(div flux - source) != net flux through the external boundary",
+                            total=s1, boundary_outflow=outflow, scale=scale, state=letter, quantity=quantity, history=htag)
+                out.ev(f"VIOLATION:{htag}:{quantity}:open", key)
+
+
+def _run_history(case, out):
+    """One model object through a change of the boundary condition TYPE between two time
+    steps, following the shipped per-step update path (before_nonlinear_loop)."""
+    cfg, hist = case["cfg"], case["history"]
+    model = G.build(cfg, extra_mixins=(_switchable_mixin(),), tag="hist:" + hist, cache=False,
+                    extra_params={"grpd_closed": hist == "closed-open"})
+    letters = ("lin-1", "wave-0.3")
+    es = model.equation_system
+
+    def step(closed):
+        # what run_time_dependent_model does at the start of a time step
+        model.params["grpd_closed"] = closed
+        model.before_nonlinear_loop()
+        model.before_nonlinear_iteration()
+
+    if hist == "open-closed":
+        # step 1 with open boundaries (set up and discretized open), assembled once
+        step(False)
+        x0, xp = G.make_states(model, "wave-1")
+        G.install(model, x0, xp)
+        model.assemble_linear_system()
+        _open_phase(out, model, cfg, ("wave-1",), hist + "/open")
+        # from step 2 on the boundaries are closed
+        step(True)
+        _closed_phase(out, model, cfg, letters, ("fresh",), hist + "/closed")
+    elif hist == "closed-open":
+        step(True)
+        _closed_phase(out, model, cfg, letters, ("fresh",), hist + "/closed")
+        step(False)
+        _open_phase(out, model, cfg, letters, hist + "/open")
+    else:
+        raise ValueError(hist)
     return out
 
 
